@@ -488,6 +488,37 @@ def x64_enabled_late_case(ctx):
                 what=f"{name} deviates from via_jvp by {dev:.2e} when double precision is enabled after the import")
 
 
+def routine_object_reuse_case(ctx):
+    """one routine object called twice with different initial values (same shapes): the second call returns the
+    coefficients of the second initial value (seeded change C10-s12: a prior memoised per shape inside the routine object)"""
+    import jax.numpy as jnp
+    from probdiffeq import probdiffeq
+
+    f = lambda u, /, *, t: 0.5 * u * (1 - u) + t  # noqa: E731
+    ode = probdiffeq.ode(f)
+    res = probdiffeq.residual_from_ode(ode).jet_lift(lift_by=2)
+    makers = {
+        "padded_scan": (lambda: probdiffeq.jetexpand_ode_padded_scan(num=3), ode),
+        "unroll": (lambda: probdiffeq.jetexpand_ode_unroll(num=3), ode),
+        "via_jvp": (lambda: probdiffeq.jetexpand_ode_via_jvp(num=3), ode),
+        "doubling": (lambda: probdiffeq.jetexpand_ode_doubling_unroll(num_doublings=2), ode),
+        "residual": (lambda: probdiffeq.jetexpand_residual(num=3), res),
+    }
+    ua, ub = jnp.asarray([0.5, -0.25]), jnp.asarray([1.5, 0.75])
+    for name, (make, problem) in makers.items():
+        alg = make()
+        first = alg(problem, (ua,), t=0.25)[0]
+        second = np.stack([np.asarray(x) for x in alg(problem, (ub,), t=0.25)[0]])
+        fresh = np.stack([np.asarray(x) for x in make()(problem, (ub,), t=0.25)[0]])
+        case = {"routine": name, "mode": "one routine object, two calls with different initial values", "u0 first": [0.5, -0.25], "u0 second": [1.5, 0.75], "t0": 0.25}
+        ctx.case(case)
+        ctx.count("routine-object-reuse")
+        dev = float(np.max(np.abs(second - fresh) / (np.abs(fresh) + 1e-3 * np.max(np.abs(fresh)))))
+        ctx.dev("routine-reuse.coeffs", dev, 1e-9, case=case, sig=f"{name}:routine-object-reuse",
+                what=f"{name}: second call on the same routine object deviates by {dev:.2e} from a fresh routine object on the same input")
+        del first
+
+
 def implicit_series(a, b, c, e, u0, v0_unused, t0, n):
     """exact Taylor coefficients (unnormalised derivatives u, u', ..., u^(n)) of the solution of the implicit problem
     u' + a u'^3 = b u + c t + e, u(t0) = u0, on the branch u'(t0) = r (e is chosen by the caller such that r is rational);
@@ -605,6 +636,7 @@ def run(ctx):
 
     implicit_residual_corpus(ctx)
     shared_jit_case(ctx)
+    routine_object_reuse_case(ctx)
     x64_enabled_late_case(ctx)
     # residual route (Gauss-Newton on a diffuse prior)
     n_res = ctx.n(4, 30)
